@@ -15,9 +15,9 @@ Local Open Scope string_scope.
         generator's naming (process_name, an underscore back if that is no identifier, then "_" appended until the name
         is free of self / kwargs / gql / UNSET / serialize functions / the result class / earlier parameters).
         No defect-class guard is left: g_f10, g_f21, the parameter-name conditions and names_ok went away with
-        /repo d163d56, 1ef155d/0db841f, a558946/7f3b78b, e1c98d1, 6bef770, 70630f0.  inputs_ok is a SCOPE condition of
-        the model (input types whose fields mangle to distinct Python names; since /repo bec4417 the real code also
-        handles colliding fields - suffix loop - which the model does not represent: K3 only). ---- *)
+        /repo d163d56, 1ef155d/0db841f, a558946/7f3b78b, e1c98d1, 6bef770, 70630f0.  inputs_ok is VALIDITY of the
+        schema (distinct field names per input type, distinct type names): colliding mangled field names are handled by the
+        modelled suffix loop (C06's Inputs.fname, FreshP.fname_nodup) since /repo bec4417 / a4347c6. ---- *)
 Definition valid_var_names (vs : list vardef) : bool := forallb (fun v => gql_name (s2l (v_name v))) vs.
 
 Theorem C03_sent_coerces_to_intended : forall ser, ser_wf ser -> forall S snake,
@@ -222,6 +222,21 @@ Example C03_f18_f33_regression :
     = Sent [("d", JArr [JArr [JStr "_item0"; JStr "a"]])] /\
   dictval_str (gen_se (TList (TNamed "DT")) "d" "_item0" true 0) =
     "d if d is None or d is UNSET else [_item0_ if _item0_ is None else _item0(_item0_) for _item0_ in d]".
+Proof. vm_compute. repeat split. Qed.
+
+(* F18 input-field collisions (fixed by /repo bec4417 + a4347c6) are INSIDE the model now (C06's Inputs.fname): fooBar becomes
+   foo_bar_ (alias fooBar), foo_bar keeps its name; both are delivered *)
+Definition S18 : schema :=
+  [("In", DInput [{| if_name := "fooBar"; if_type := TNamed "Int"; if_default := None |};
+                  {| if_name := "foo_bar"; if_type := TNamed "Int"; if_default := None |}])].
+Example C03_f18_fields_regression :
+  inputs_ok S18 true = true /\
+  map (fpy true [{| if_name := "fooBar"; if_type := TNamed "Int"; if_default := None |};
+                 {| if_name := "foo_bar"; if_type := TNamed "Int"; if_default := None |}])
+      [{| if_name := "fooBar"; if_type := TNamed "Int"; if_default := None |};
+       {| if_name := "foo_bar"; if_type := TNamed "Int"; if_default := None |}] = ["foo_bar_"; "foo_bar"] /\
+  callm S18 true [V "i" (TNamed "In")] [("i", PModel "In" [("foo_bar_", PInt 1); ("foo_bar", PInt 2)])]
+    = Sent [("i", JObj [("fooBar", JInt 1); ("foo_bar", JInt 2)])].
 Proof. vm_compute. repeat split. Qed.
 
 (* F21 (fixed for input fields by /repo 1ef155d: [Int]! with a None item is now accepted by the class;
